@@ -165,6 +165,25 @@ pub fn registered_rule(cp: u32) -> &'static str {
     }
 }
 
+/// what the property states about the registry: "" if no rule is registered for cp; otherwise whether the
+/// registered rule applies to cp (it must not answer NotApplicable on the one-character label [cp])
+pub fn registry_obs(cp: u32) -> &'static str {
+    match context::get_context_rule(cp) {
+        None => "",
+        Some(f) => match char::from_u32(cp) {
+            None => "registered-for-non-scalar",
+            Some(c) => {
+                let s = c.to_string();
+                match catch_unwind(AssertUnwindSafe(|| f(&s, 0))) {
+                    Err(_) => "panic",
+                    Ok(Err(context::ContextRuleError::NotApplicable)) => "not-applicable",
+                    Ok(_) => "applies",
+                }
+            }
+        },
+    }
+}
+
 pub fn call_ctx(rule: &str, s: &str, off: usize) -> Value {
     let f = ctx_rule_fn(rule).expect("rule name");
     guarded(|| ctx_result(f(s, off)))
